@@ -89,7 +89,7 @@ type queue struct {
 	metaPageFct     page.Factory    // meta page factory
 	notEmpty        *sync.Cond      // not empty condition
 	rwMutex         *sync.RWMutex
-	putMutex        sync.Mutex // serializes appenders, sequence order must be the allocated data order
+	putMutex        sync.Mutex   // serializes appenders, sequence order must be the allocated data order
 	dirPath         string       // path for queue file
 	appendedSeq     atomic.Int64 // current written sequence
 	dataPageIndex   int64
